@@ -5,7 +5,15 @@
    adaptively and returns (action, reason).  Everything is for all `load`, all analyses, all
    histories - including histories that evict, switch modes and hit failing log sinks. *)
 From Coq Require Import Arith.
-From DippyV Require Import Base.Str Base.Verdict Model.Cache Proofs.CacheP Proofs.LruP.
+From DippyV Require Import Base.Str Base.Verdict Model.Cache Model.PairWalk Proofs.CacheP Proofs.LruP Proofs.PairWalkP.
+
+(* the tie: every place in the working tree where something can survive from one call to the next (functools
+   caches, `global` statements, class-level containers, mutable defaults, writes to module-level tables, to other
+   modules' state, to objects received as arguments - regenerated from the source on every run) is a component of
+   the model's state or a justified constant (Model/Cache.v, header of state_inventory_ok) *)
+Theorem C18_state_tie : state_inventory_ok = true.
+Proof. exact state_tie. Qed.
+Print Assumptions C18_state_tie.
 
 Section Any.
   Variable value : Type.
@@ -60,7 +68,65 @@ Section Any.
     map fst (lru value (after h init)) =
     firstn maxsize (dedup (rev (flat_map (calls value load input analysis) h))).
   Proof. exact (lru_spec value load input analysis explicit). Qed.
+
+  (* what one call leaves behind (Cache.residue lists the components of the process state whose value
+     differs before and after; the residue oracle measures the same on the real process, per call):
+     the comparison is exact, an analysis - and a direct check_command call - leaves nothing but the
+     handler cache, every other call touches only its own variables and never the cache, and with a
+     mode flag main() never rebinds the mode *)
+  Theorem C18_residue_exact : forall c s s', In c (changed value s s') <-> ~ same value c s s'.
+  Proof. exact (changed_spec value). Qed.
+  Theorem C18_analyze_residue : forall s x c,
+    In c (residue value load input analysis explicit s (QAnalyze x)) -> c = CLru.
+  Proof. exact (analyze_residue value load input analysis explicit). Qed.
+  Theorem C18_other_residue :
+    (forall s x c, In c (residue value load input analysis explicit s (QCheck x)) -> c = CLru) /\
+    (forall s m c, In c (residue value load input analysis explicit s (QSetMode m)) -> c = CMode) /\
+    (forall s log fl c, In c (residue value load input analysis explicit s (QConfigure log fl)) -> c = CLogCfg \/ c = CLogDis) /\
+    (forall s fl c, In c (residue value load input analysis explicit s (QLogDecision fl)) -> c = CLogDis) /\
+    (forall s det x log cf df m, explicit = Some m ->
+       ~ In CMode (residue value load input analysis explicit s (QMain det x log cf df))).
+  Proof.
+    exact (conj (check_residue value load input analysis explicit)
+          (conj (setmode_residue value load input analysis explicit)
+          (conj (configure_residue value load input analysis explicit)
+          (conj (log_decision_residue value load input analysis explicit)
+                (main_residue_explicit value load input analysis explicit))))).
+  Qed.
 End Any.
+Print Assumptions C18_residue_exact.
+Print Assumptions C18_analyze_residue.
+Print Assumptions C18_other_residue.
+
+(* soundness of the residue oracle for ANY process (no model of Dippy in it): when the snapshot `see` is
+   complete - it determines the answers and the next snapshot - and no call asked of the fresh process
+   leaves a visible residue, no history changes any answer.  Completeness of the snapshot is the trusted
+   part (harness/c18_state.py walks every object reachable from the dippy modules; TRUSTED says so). *)
+Theorem C18_residue_sound :
+  forall (state query answer view : Type) (step : state -> query -> state * answer) (see : state -> view) (init : state),
+    (forall s s' q, see s = see s' -> snd (step s q) = snd (step s' q) /\ see (fst (step s q)) = see (fst (step s' q))) ->
+    (forall q, see (fst (step init q)) = see init) ->
+    forall h q, snd (step (run state query answer step h init) q) = snd (step init q).
+Proof. exact residue_sound. Qed.
+Print Assumptions C18_residue_sound.
+
+(* the walk of the history oracle over a pool of n queries: every ordered pair (leaker, victim), the
+   diagonal included, is consecutive somewhere in it; it names only pool members; n*n + 2*n analyses *)
+Theorem C18_pair_walk :
+  forall n : nat,
+    (forall a b : nat, (a < n)%nat -> (b < n)%nat -> exists before after, pair_walk n = before ++ [a] ++ [b] ++ after) /\
+    (forall x : nat, In x (pair_walk n) -> (x < n)%nat) /\
+    length (pair_walk n) = (n * n + 2 * n)%nat.
+Proof. exact (fun n => conj (pair_walk_moment n) (conj (pair_walk_range n) (pair_walk_length n))). Qed.
+Print Assumptions C18_pair_walk.
+Example C18_example_walk : pair_walk 3 = [0; 0; 0; 1; 0; 2; 0; 1; 1; 1; 2; 1; 2; 2; 2]%nat%list.
+Proof. vm_compute. reflexivity. Qed.
+Example C18_example_residue :
+  residues unit (fun _ => tt) unit (fun _ => Get [103%N] (fun _ => Done (Allow, []))) None (init unit None)
+    [QAnalyze tt; QAnalyze tt; QMain HGemini tt (Some ([120%N], false)) false true; QSetMode HGemini]
+  = [[CLru]; []; [CMode; CLogCfg; CLogDis]; []].
+Proof. vm_compute. reflexivity. Qed.
+
 Print Assumptions C18_inv.
 Print Assumptions C18_pure.
 Print Assumptions C18_pure_answer.
